@@ -1,6 +1,7 @@
 /-
 Executable side conditions and spec checkers for the planariser tie (driver section `planx`).
-  `separatedB`  — the hypothesis of the theorems of Props/C19Planarise as a decidable test of an input
+  `goodB`, `goodAB`, `sepInputB` — the hypotheses of the theorems of Props/C19Planarise in decidable form (soundness:
+                  Lemmas/PlanariseGood.lean, PlanariseInputB.lean)
   `ambiguity`   — is the library's result on this input determined by the source alone? (no dependence on
                   std::sort tie handling / heap addresses / double rounding of the running average)
   `specCrossings`, `firstProperCross`, `chainB` — the three clauses of the property on a concrete output
@@ -10,53 +11,9 @@ import AdaptaVerif.Model.Planarise
 namespace AdaptaVerif.Check.Planarise
 open AdaptaVerif.Model.Planarise
 
-/-! ### hypothesis of the theorems -/
+/-! ### helpers -/
 
 def sortRat (l : List Rat) : List Rat := l.mergeSort (fun a b => decide (a ≤ b))
-
-/-- adjacent values of an ascending list are equal or more than `gap` apart -/
-def gapsOk (gap : Rat) : List Rat → Bool
-  | a :: b :: rest => (a == b || b - a > gap) && gapsOk gap (b :: rest)
-  | _ => true
-
-def orthoRoute : List Pt → Bool
-  | a :: b :: rest => ((a.x == b.x && a.y != b.y) || (a.x != b.x && a.y == b.y)) && orthoRoute (b :: rest)
-  | _ => true
-
-def between (a b c : Rat) : Bool := (a ≤ c && c ≤ b) || (b ≤ c && c ≤ a)
-
-/-- `p` on the closed axis-parallel segment `a b` -/
-def onSegAP (a b p : Pt) : Bool :=
-  (a.y == b.y && p.y == a.y && between a.x b.x p.x) || (a.x == b.x && p.x == a.x && between a.y b.y p.y)
-
-def routeSegs : List Pt → List (Pt × Pt)
-  | a :: b :: rest => (a, b) :: routeSegs (b :: rest)
-  | _ => []
-
-/-- no node centre lies on the route except the source at its first point and the target at its last -/
-def routeAvoidsCentres (nodes : List Node) (e : EdgeIn) : Bool :=
-  let segs := routeSegs e.route
-  let n := segs.length
-  (zipIdxFrom 0 segs).all (fun (i, (a, b)) =>
-    nodes.all (fun nd =>
-      !onSegAP a b nd.p ||
-      (nd.id == e.src.id && i == 0 && nd.p == a) ||
-      (nd.id == e.tgt.id && i + 1 == n && nd.p == b)))
-
-def distinctCentres : List Node → Bool
-  | [] => true
-  | n :: rest => rest.all (fun m => m.p != n.p && m.id != n.id) && distinctCentres rest
-
-/-- orthogonal routes from the source centre to the target centre, every two distinct x (y) values of
-the case more than 1 (> every tolerance of the planariser) apart, centres distinct, no route through a
-third node's centre -/
-def separatedB (inp : Input) : Bool :=
-  let pts := inp.nodes.map (·.p) ++ inp.edges.flatMap (·.route)
-  distinctCentres inp.nodes &&
-  inp.edges.all (fun e => e.route.length ≥ 2 && e.route.head? == some e.src.p &&
-    e.route.getLast? == some e.tgt.p && orthoRoute e.route && routeAvoidsCentres inp.nodes e &&
-    e.src.id != e.tgt.id) &&
-  gapsOk 1 (sortRat (pts.map (·.x))) && gapsOk 1 (sortRat (pts.map (·.y)))
 
 /-! ### ambiguity of the library's result as coded -/
 
